@@ -53,6 +53,8 @@ pub enum RFp {
     /// that handles such attributes must not do so before it has checked the FINGERPRINT)
     BadWithUnknownRequired,
     AbsentWithUnknownRequired,
+    /// a VALID FINGERPRINT, in a message that also carries an unknown comprehension-required attribute
+    ValidWithUnknownRequired,
     /// a wrong FINGERPRINT, and BEYOND the end of the message (the header length is not changed) 12 more bytes in the
     /// buffer: the little-endian CRC-32 of the message followed by `80 28 00 04 00 00 00 00`; the FINGERPRINT value is the
     /// CRC-32 residue constant XOR 0x5354554e, so "the last 8 bytes of the buffer are a FINGERPRINT whose value matches the
@@ -218,7 +220,7 @@ pub fn build_reply(w: &World, tid: [u8; 12], req: Option<&[u8]>, r: &Reply) -> V
         RClass::Indication => (1, vec![L::Software("ind".into())]),
         RClass::Request => (0, vec![L::Software("req".into())]),
     };
-    if matches!(r.fp, RFp::BadWithUnknownRequired | RFp::AbsentWithUnknownRequired) {
+    if matches!(r.fp, RFp::BadWithUnknownRequired | RFp::AbsentWithUnknownRequired | RFp::ValidWithUnknownRequired) {
         attrs.push(L::Unknown(0x7F01, Some(vec![1, 2, 3, 4])));
     }
     if let Some(c) = &r.chal {
@@ -278,7 +280,7 @@ pub fn build_reply(w: &World, tid: [u8; 12], req: Option<&[u8]>, r: &Reply) -> V
             attrs.push(L::Fp);
             macs.push(Mac::Bad);
         }
-        RFp::Valid | RFp::ValueOfPrevious => {
+        RFp::Valid | RFp::ValueOfPrevious | RFp::ValidWithUnknownRequired => {
             attrs.push(L::Fp);
             macs.push(Mac::Good);
         }
